@@ -131,6 +131,21 @@ class Actor:
         except FileExistsError:
             return "exists"
 
+    def parallel(self, overwrite, path=None):
+        """the parallel controller with this path as the file of its single chain (exchange off)"""
+        S, D, MM, Samples = _S()
+        try:
+            with quiet(), np.errstate(all="ignore"):
+                S.ParallelSampleSMP(seed=1).sample([getattr(S, self.kind)(seed=self.rnd.randrange(1 << 30))], [path or self.path], [self.dist], proposals=4, exchange=False,
+                                                   kwargs={"disable_progressbar": True}, **({"overwrite_existing_files": True} if overwrite else {}))
+            return "ok"
+        except AssertionError:
+            return "rejected"
+        except FileExistsError:
+            return "exists"
+        except Exception as e:
+            return f"other:{type(e).__name__}"
+
     def other(self, op):
         S, D, MM, Samples = _S()
         try:
@@ -172,8 +187,8 @@ class Actor:
             return f"other:{type(e).__name__}"
 
 
-OPS = ["Sv0", "Sv1", "Sb0", "Sb1", "Sa0", "Sa1", "W0", "W1", "C", "D", "P", "L"]
-NO_CONSENT = ["Sv0", "Sb0", "Sa0", "W0", "C", "D", "P", "L"]
+OPS = ["Sv0", "Sv1", "Sb0", "Sb1", "Sa0", "Sa1", "W0", "W1", "C", "D", "P", "L", "M0", "M1"]   # M = the multi-chain controller with this path among its file names
+NO_CONSENT = ["Sv0", "Sb0", "Sa0", "W0", "C", "D", "P", "L", "M0"]
 
 
 def run_sequence(rnd, ops, kind, npy, tmp, tag, forced=None):
@@ -193,6 +208,8 @@ def run_sequence(rnd, ops, kind, npy, tmp, tag, forced=None):
             res, why = actor.sample(op[1], op[2] == "1")
         elif op[0] == "W":
             res, why = actor.open_write(op[1] == "1"), ""
+        elif op[0] == "M":
+            res, why = actor.parallel(op[1] == "1"), ""
         else:
             res, why = actor.other(op), ""
         after = (sha(path), sha(side))
@@ -225,6 +242,8 @@ def run_paths_sequence(rnd, ops, kind, npy, tmp, tag):
             res, why = actor.sample(op[1], op[2] == "1", path=paths[pi])
         elif op[0] == "W":
             res, why = actor.open_write(op[1] == "1", path=paths[pi]), ""
+        elif op[0] == "M":
+            res, why = actor.parallel(op[1] == "1", path=paths[pi]), ""
         else:
             res, why = actor.other(op), ""
         after = snap()
@@ -250,7 +269,7 @@ def paths_suite(rnd, N, findings):
             npy = (i // 2) % 2 == 1
             first, obs = run_paths_sequence(rnd, ops, kind, npy, tmp, i % 4)
             stim = {"sampler": kind, "backend": "npy" if npy else "h5", "ops": [f"{o}@{p}" for p, o in ops], "why": [o["why"] for o in obs]}
-            consent0 = any(p == 0 and o in ("Sv1", "Sa1", "W1") for p, o in ops)
+            consent0 = any(p == 0 and o in ("Sv1", "Sa1", "W1", "M1") for p, o in ops)
             sp.case(stim, nontrivial=(not consent0 and any(p == 1 for p, _ in ops)), sample={"ops": stim["ops"], "results": [o["result"] for o in obs]} if len(sp.samples) < 3 else None)
             sp.count(f"backend={'npy' if npy else 'h5'}")
             for p, o in ops:
@@ -260,7 +279,7 @@ def paths_suite(rnd, N, findings):
                 problems.append(f"the initial run failed: {first}")
             consented = [False, False]
             for k, o in enumerate(obs):
-                if o["op"] in ("Sv1", "Sa1", "W1"):
+                if o["op"] in ("Sv1", "Sa1", "W1", "M1"):
                     consented[o["path"]] = True
                 for q in (0, 1):
                     if o["before"][q] != o["after"][q]:
@@ -286,7 +305,7 @@ def paths_suite(rnd, N, findings):
         for k, (o, part) in enumerate(zip(obs, ans[3:].split(" | "))):
             toks = part.split()
             res, cur = toks[0], [(toks[1], toks[2]), (toks[3], toks[4])]
-            consent = o["op"] in ("Sv1", "Sa1", "W1")
+            consent = o["op"] in ("Sv1", "Sa1", "W1", "M1")
             ok = o["result"] == res
             for q in (0, 1):
                 exists_real = o["after"][q][0] is not None
@@ -519,8 +538,8 @@ def run(tier, seed):
                 problems.append(f"the initial run failed: {first}")
             consent_seen = False
             for k, o in enumerate(obs):
-                consent_seen = consent_seen or o["op"] in ("Sv1", "Sa1", "W1")
-                if o["op"] not in ("Sv1", "Sa1", "W1") and ((o["file_changed"] and o["file_existed"]) or (o["sidecar_changed"] and o["sidecar_existed"])):
+                consent_seen = consent_seen or o["op"] in ("Sv1", "Sa1", "W1", "M1")
+                if o["op"] not in ("Sv1", "Sa1", "W1", "M1") and ((o["file_changed"] and o["file_existed"]) or (o["sidecar_changed"] and o["sidecar_existed"])):
                     problems.append(f"operation {k} ({o['op']}{' ' + o['why'] if o['why'] else ''}) changed the existing "
                                     f"{'file' if o['file_changed'] else 'sidecar'} without overwrite consent")
                     break
@@ -545,7 +564,7 @@ def run(tier, seed):
             m_file_changed = fid != prev[0]
             m_side_changed = sid != prev[1]
             prev = (fid, sid)
-            consent = o["op"] in ("Sv1", "Sa1", "W1")
+            consent = o["op"] in ("Sv1", "Sa1", "W1", "M1")
             # with consent the new bytes may coincide with the old ones: compare outcome and existence only
             ok = o["result"] == res and o["file_exists"] == (fid != "-") and (
                 consent or (o["file_changed"] == m_file_changed and (o["sidecar_changed"] == m_side_changed or not npy)))
